@@ -201,6 +201,8 @@ pub enum Op {
     // feature checks that need a state
     ParCheck { s: u8, threads: u8, reps: u8 },
     SerdeCheck { s: u8 },
+    /// operation on the zero-sized-element collections
+    Z(crate::zst::ZOp),
     // HashSet operations (set slots are separate from the map slots)
     /// which: 0 insert 1 replace 2 remove 3 take 4 get 5 contains 6 get_or_insert
     /// 7 get_or_insert_owned 8 get_or_insert_with
@@ -274,6 +276,7 @@ impl Op {
                 7 => "set_get_or_insert_owned",
                 _ => "set_get_or_insert_with",
             },
+            Op::Z(_) => "zst",
             Op::SetInsertMany { .. } => "set_insert_many",
             Op::SetRetain { .. } => "set_retain",
             Op::SetDrainFilter { .. } => "set_drain_filter",
